@@ -233,6 +233,59 @@ func zzC06_do() {
 	symAssert(cc.midHandlerContainer.Length() == 0 && cc.tokenHandlerContainer.Length() == 0, "nothing is retained for the request")
 }
 
+// a second confirmable request whose caller preset the message ID of a request that is still unacknowledged is
+// refused - and the refusal leaves the outstanding request's retransmission state alone: it is still retransmitted,
+// and the acknowledgement that then arrives completes it
+func zzC06_mid_collision() {
+	s := zzNewSession()
+	cc := zzNewConn(s, zzConnCfg{midSeed: 1000, nstart: 2, maxRetrans: 4, ackTimeout: 1000})
+	now := int64(1 << 41)
+	symSetNow(time.Unix(0, now))
+	a := &zzCall{token: message.Token{0xA1}}
+	go zzDo(cc, a)
+	zzWaitWritten(s, 1)
+	symIdle()
+	mid := s.written[0].mid
+	oneWay := symChoose("colliding-operation", 2) == 1
+	bdone := false
+	var berr error
+	go func() {
+		req := pool.NewMessage(context.Background())
+		req.SetCode(codes.GET)
+		req.SetToken(message.Token{0xB1})
+		req.SetType(message.Confirmable)
+		req.SetMessageID(mid)
+		_ = req.SetPath("/b")
+		if oneWay {
+			berr = cc.WriteMessage(req)
+		} else {
+			_, berr = cc.Do(req)
+		}
+		bdone = true
+	}()
+	symWaitUntil(func() bool { return bdone })
+	symIdle()
+	symAssert(berr != nil, "a confirmable message whose ID is already in flight is refused")
+	symAssert(!a.done, "the outstanding request is still waiting")
+	symCover("collision-refused")
+	// the outstanding request is still retransmitted ...
+	base := len(s.written)
+	now += 5000
+	symSetNow(time.Unix(0, now))
+	cc.CheckExpirations(time.Unix(0, now))
+	retrans := 0
+	for _, w := range s.written[base:] {
+		if w.mid == mid && len(w.token) == 1 && w.token[0] == 0xA1 {
+			retrans++
+		}
+	}
+	symAssert(retrans == 1, "the outstanding request is still retransmitted after the refusal")
+	// ... and still completed by its acknowledgement
+	zzAnswer(cc, s.written[0], 9, 0, 1)
+	symWaitUntil(func() bool { return a.done })
+	symAssert(a.err == nil && len(a.body) == 1 && a.body[0] == 9, "and its acknowledgement still completes it")
+}
+
 func zzC06_selftest() {
 	s := zzNewSession()
 	cc := zzNewConn(s, zzConnCfg{midSeed: 1000, ackTimeout: 1000, maxRetrans: 2, nstart: 1})
